@@ -7,7 +7,7 @@ PROP = {
     "level_text": ("Generated histories of acquire (1..4 concurrent Wait callers) / advance(0..90 s) / failure(status) / success run on the real tokenBucket (with its real 50 ms polling) "
                    "and through the real BucketManager (2..5 hosts) under a virtual clock. Oracle = invariants, not a copy of the arithmetic: for every pair of releases i<j, "
                    "j-i+1 <= capacity + (tj-ti) x configured rate; tokens in [0, capacity]; min(0.5, rate) <= refill rate <= rate after every step; no release within 5 s "
-                   "(min(5 x 2^(k-1), 30) s for the k-th failure in a row) after a 429/403/408/425; 5xx never raises the rate nor sets a penalty; success never lowers it; "
+                   "(min(5 x 2^(k-1), 30) s where k is a lower bound of the limiter's failure count: +1 per failure, -1 per success reported after the penalty) after a 429/403/408/425; 5xx never raises the rate nor sets a penalty; success never lowers it; "
                    "every waiter is released within 30 s + (waiters+1)/min-rate after the last event."),
     "level_note": "Real goroutines under the synctest scheduler; interleavings of concurrent waiters inside one polling tick are the runtime's. Capacity >= 1 (below one token Wait can never succeed). Eviction is outside this check (hosts <= maxBuckets); the end-to-end side (archive() waits once per item and reports every response to the limiter under the key it waited on) is the C13/pipeline facet of the simulated-network harness: per host - also host:port - the window bound and 'no new request within 5 s after a 429/408/425 (403: open finding)' over the virtual arrival times of first attempts.",
     "rule": "rapid-generated event lists (1..40 events, capacity 1..20, rate 0.05..50/s incl. < 0.5/s); non-trivial = history with >= 1 failure and >= 1 release after it (manager facet: plus >= 2 hosts used); distinct = distinct case JSON",
